@@ -130,6 +130,13 @@ def drive(draw, h, cfg):
     tp = target_paths(h) or cfg['universe'][:4]
     for _ in range(draw(st.sampled_from([0, 0, 1, 2, 3]))):
         step(h, draw(gen.ext_step(tp)))
+    if draw(st.sampled_from(range(6))) == 0:
+        # an ancestor directory of a target is a symbolic link to a directory elsewhere: for the library a plain directory
+        anc = sorted({a for t in tp for a in ['/'.join(t.split('/')[:i]) for i in range(1, len(t.split('/')))]})
+        anc = [a for a in anc if a and not os.path.lexists(h.sb.ap(a)) and not h.protected(h.sb.ap(a)) and len(a.split('/')[-1]) < 200]
+        if anc:
+            step(h, ['symlinkdir', draw(st.sampled_from(anc))])
+            h.stats['c10_symlinked_ancestor'] += 1
     for i in range(draw(st.integers(1, 6))):
         if h.dead:
             break
